@@ -206,7 +206,7 @@ def parse_coverage(ctx, out):
             ctx.covered += 1
 
 
-def generate(ctx, module, family, constants, shards, stride=1, timeout=900, name=None):
+def generate(ctx, module, family, constants, shards, stride=1, timeout=900, name=None, family_constant=True):
     """Run a generator module sharded over several JVMs; returns the list of ndjson files."""
     files = []
     xmx = "%dg" % max(2, min(6, 48 // max(1, shards)))
@@ -214,8 +214,9 @@ def generate(ctx, module, family, constants, shards, stride=1, timeout=900, name
     def one(sh):
         out = os.path.join(ctx.scratch, "%s.%s.%d.ndjson" % (name or module, family, sh))
         c = dict(constants)
-        c.update({"Family": family, "Shard": sh, "NShards": shards, "OutFile": out, "Seed": ctx.seed,
-                  "Stride": stride, "Dev": "{}", "Tier": ctx.tier})
+        c.update({"Shard": sh, "NShards": shards, "OutFile": out, "Seed": ctx.seed, "Stride": stride, "Dev": "{}"})
+        if family_constant:
+            c.update({"Family": family, "Tier": ctx.tier})
         res = run_tlc(ctx, module, c, ["INIT Init", "NEXT Next"], name="%s_%s_%d" % (name or module, family, sh),
                       workers=1, timeout=timeout, xmx=xmx)
         if not os.path.exists(out):
@@ -252,6 +253,11 @@ def replay(ctx, files, cats, canary_every=5000, oneshot=False, keep=3000, timeou
     ctx.unspec += s["unspecified_skipped"]
     ctx.canaries_in += s["canaries_injected"]
     ctx.canaries_hit += s["canaries_caught"]
+    for k, n in (s.get("drift") or {}).items():
+        ctx.drift.append("%s: %d" % (k, n))
+    for d in s.get("drift_samples") or []:
+        if len(ctx.drift) < 20:
+            ctx.drift.append(d)
     for x in s["samples"] or []:
         if len(ctx.samples) < 8:
             ctx.samples.append(x)
